@@ -41,6 +41,14 @@ Proof. exact change_scale_survivor. Qed.
 Print Assumptions C18_survivors_kept.
 
 (* the name scheme "%s-%s-%d" determines the ordinal *)
+(* a scale request whose StatefulSet update fails (conflict, API error) changes nothing - in particular it deletes
+   no claim - and reports the failure exactly when a change had been asked for *)
+Theorem C18_failed_update_deletes_nothing : forall del set e c,
+  fst (change_scale_f true del set e c) = c /\
+  (snd (change_scale_f true del set e c) = true <-> exists old, spec_replicas c = Some old /\ old <> e).
+Proof. exact change_scale_failed. Qed.
+Print Assumptions C18_failed_update_deletes_nothing.
+
 Theorem C18_names : forall t t' set set' i j,
   0 <= i -> 0 <= j -> pvc_name t set i = pvc_name t' set' j -> i = j.
 Proof. exact pvc_name_ordinal_inj. Qed.
